@@ -49,6 +49,11 @@ type fragCase struct {
 	SlowLastMs int `json:"slow_last_ms,omitempty"`
 	// ExplicitParser: the client's configuration names the standard response parser explicitly (see cli.Scenario)
 	ExplicitParser bool `json:"explicit_parser,omitempty"`
+	// ShortTimeoutMs (serial kinds, replies delivered in at most three reads with at most two empty reads): the client's total read
+	// timeout is this short (25 ms: less than the pause the serial client makes after writing). The reply is there at once, so it
+	// must still be returned; because a starved machine can stall a goroutine for that long, a failure is believed only if the same
+	// scenario fails three more times on its own.
+	ShortTimeoutMs int `json:"short_timeout_ms,omitempty"`
 	// Address: the form of the address given to Connect (network kinds; see cli.Scenario)
 	Address string `json:"address,omitempty"`
 	// Prior / PriorRepeat (network kinds): earlier calls on the same client that were given up - "cancelled" (context cancelled while
@@ -141,6 +146,9 @@ func prepare(c fragCase) (prepared, error) {
 		p.sc.ReadTimeoutMs = 25
 	} else if c.SlowLastMs > 0 {
 		p.sc.ReadTimeoutMs = 200
+	} else if c.ShortTimeoutMs > 0 && cli.IsSerial(c.Kind) {
+		p.sc.ReadTimeoutMs = c.ShortTimeoutMs
+		p.sc.Follow = false
 	}
 	return p, nil
 }
@@ -166,6 +174,9 @@ func judge(c fragCase, p prepared, o cli.Outcome) harness.Result {
 	}
 	if c.SlowLastMs > 0 {
 		labels = append(labels, "last-read-blocks-beyond-timeout")
+	}
+	if c.ShortTimeoutMs > 0 {
+		labels = append(labels, "serial-read-timeout-25ms")
 	}
 	if c.ExplicitParser {
 		labels = append(labels, "explicit-parser")
@@ -324,6 +335,15 @@ func genFrag(t *rapid.T, kinds []string) fragCase {
 	if cli.IsSerial(c.Kind) && c.ExcCode == 0 && rapid.IntRange(0, 7).Draw(t, "slow_last") == 0 {
 		c.SlowLastMs = 260
 	}
+	if cli.IsSerial(c.Kind) && c.SlowLastMs == 0 && len(c.Chunks) <= 3 && rapid.IntRange(0, 3).Draw(t, "short_timeout") == 0 {
+		gaps := 0
+		for _, g := range c.Gaps {
+			gaps += g
+		}
+		if gaps <= 2 {
+			c.ShortTimeoutMs = 25
+		}
+	}
 	c.Follow = c.SlowLastMs > 0 || c.ExcCode == 0 && rapid.IntRange(0, 3).Draw(t, "follow") == 0
 	return c
 }
@@ -359,6 +379,9 @@ var chkSerial = harness.Define("fragmented-reply-serial-batch",
 		lab := map[string]bool{}
 		for i, c := range b.Cases {
 			r := judge(c, ps[i], outs[i])
+			for again := 0; again < 3 && r.Err != nil && c.ShortTimeoutMs > 0; again++ {
+				r = judge(c, ps[i], cli.Run(ps[i].sc)) // (on its own, without 63 other scenarios competing for the processor)
+			}
 			if r.Err != nil {
 				return harness.Fail("serial scenario %d (%+v): %v", i, c, r.Err)
 			}
